@@ -572,6 +572,16 @@ func c16Run(r *hx.Run, bin string, seq *c16Seq, rnd *rand.Rand) {
 				return "cmp_drop_level cmpA drops br"
 			},
 		}
+	case "cache_settings_changed":
+		script = []func() string{
+			func() string {
+				// size and hit-for-pass of a surviving cache are restart-only: the update need not take
+				// effect, but the servers bound to that cache must keep serving
+				logical.Caches[1].Size = 777
+				logical.Caches[1].HitForPass = "10m"
+				return "cache c1: size and hitForPass changed (restart-only settings)"
+			},
+		}
 	case "server_cache_switch":
 		script = []func() string{
 			func() string { findSrv(logical, "S1").Cache = "c0"; return "srv_cache_switch S1 c0" },
@@ -687,6 +697,19 @@ func c16Run(r *hx.Run, bin string, seq *c16Seq, rnd *rand.Rand) {
 			r.Violate("persisted_entry_of_surviving_cache_lost", map[string]string{"apply_methods": "directed"}, "after a cache sharing the same store was removed, an evicted entry of the surviving cache is no longer served from the store: before "+sharedPre.String()+" | after eviction "+back.String(), nil, cs)
 			return
 		}
+	}
+	if seq.Directed == "cache_settings_changed" {
+		for k := 0; k < 6; k++ {
+			o := L.probe(farm, "S1", fmt.Sprintf("/p1/afterchange?size=300&n=%d", seq.ID*100+k), "")
+			if o.Status != 200 {
+				r.Violate("server_cannot_resolve_its_cache_after_update", nil, "after an accepted update that only changed restart-only settings of a cache, a server bound to it answers: "+o.String(), nil, cs)
+				return
+			}
+		}
+		r.Add("restart_only_cache_setting_updates_survived", 1)
+		r.Add("sequences", 1)
+		r.Distinct(fmt.Sprintf("%v", seq.Steps))
+		return
 	}
 	if seq.Directed == "remove_two_servers" {
 		time.Sleep(time.Until(removedAt.Add(14 * time.Second)))
@@ -828,7 +851,7 @@ func c16(r *hx.Run) {
 	n := r.Pick(8, 150)
 	sem := make(chan struct{}, 8)
 	var wg sync.WaitGroup
-	for i := 0; i < n+7 && !r.TooMany(); i++ {
+	for i := 0; i < n+8 && !r.TooMany(); i++ {
 		seq := &c16Seq{ID: i, CheckRemovedListener: i%8 == 0}
 		if i == n {
 			seq.Directed = "best_override_then_remove"
@@ -850,6 +873,9 @@ func c16(r *hx.Run) {
 		}
 		if i == n+6 {
 			seq.Directed = "shared_store_cache_removed"
+		}
+		if i == n+7 {
+			seq.Directed = "cache_settings_changed"
 		}
 		seed := rnd.Int63()
 		wg.Add(1)
